@@ -133,3 +133,19 @@ pub fn c20_zone_from_str(s: &str) -> Option<Zone> {
         _ => None,
     }
 }
+
+// ---- C02: a reference written from a defaulted lookup
+pub struct IdMaps {
+    pub spaces: std::collections::BTreeMap<String, u32>,
+}
+impl IdMaps {
+    pub fn space_id(&self, name: &str) -> Result<u32, String> {
+        self.spaces.get(name).copied().ok_or_else(|| "missing".to_string())
+    }
+}
+pub struct C02Wall {
+    pub space: u32,
+}
+pub fn c02_convert(names: &[String], id_maps: &IdMaps) -> Vec<C02Wall> {
+    names.iter().map(|n| C02Wall { space: id_maps.space_id(n).unwrap_or_default() }).collect()
+}
